@@ -35,7 +35,7 @@ CHECKS["C11"] = (
     "exhaustive finite-domain enumeration of reseat (3 entry points) on the real code; clause oracle in exact Fractions",
     "All tempo lists with 2..3/4 changes on a half/quarter-beat grid within 16 beats (metronomes 4 and 3, bpm palette) plus an "
     "epsilon alphabet just after measure/beat lines, through reseat_bpm_changes_snap, from_bpm_changes_snap(reseat=True) and "
-    "TimingMap.reseat(); clauses: on a measure line, original change times kept, bpm kept where whole measures follow, at most one "
+    "TimingMap.reseat(); clauses: on a measure line, original change times kept (and the caller's own list still denoting them after the call), bpm kept where whole measures follow, at most one "
     "insert per interval, re-reseat leaves bpm(t) unchanged.",
     "'Randomly on finer grids' replaced by exhaustive grids + epsilon alphabet. Known open findings: the two 'extend' branches.",
     "DESIGN.md §4 C11",
